@@ -503,6 +503,34 @@ func rulePodUseENI(c *Ctx, rule string) {
 		return
 	}
 	info := fn.Info()
+	keyFn := fn
+	isKey := func(x ast.Expr) bool {
+		o := identObjSel(info, derefExpr(keyFn, x)) // directly, or through a local bound to the constant
+		return o != nil && o.Name() == "PodENI"
+	}
+	// the classifier may hand the decision to a predicate over (annotations, key): `return h(…, PodENI)`
+	if len(fn.Decl.Body.List) == 1 {
+		if rs, ok := fn.Decl.Body.List[0].(*ast.ReturnStmt); ok && len(rs.Results) == 1 {
+			if call, ok := ast.Unparen(rs.Results[0]).(*ast.CallExpr); ok {
+				if h := p.FuncOf(Callee(info, call)); h != nil {
+					var keyParam types.Object
+					i := 0
+					for _, f := range h.Decl.Type.Params.List {
+						for _, nm := range f.Names {
+							if i < len(call.Args) && isKey(call.Args[i]) {
+								keyParam = h.Info().Defs[nm]
+							}
+							i++
+						}
+					}
+					if keyParam != nil {
+						fn, info = h, h.Info()
+						isKey = func(x ast.Expr) bool { return identObj(info, x) == keyParam }
+					}
+				}
+			}
+		}
+	}
 	var okId *ast.Ident
 	var parseErr types.Object
 	ast.Inspect(fn.Decl.Body, func(k ast.Node) bool {
@@ -512,7 +540,7 @@ func rulePodUseENI(c *Ctx, rule string) {
 		}
 		switch r := ast.Unparen(as.Rhs[0]).(type) {
 		case *ast.IndexExpr:
-			if o := identObjSel(info, r.Index); o != nil && o.Name() == "PodENI" {
+			if isKey(r.Index) {
 				okId, _ = ast.Unparen(as.Lhs[1]).(*ast.Ident)
 			}
 		case *ast.CallExpr:
